@@ -566,17 +566,18 @@ for _p in ('C02', 'C04', 'C03'):
     PROPS[_p]['trusted'] = PROPS[_p]['trusted'] + ['Verus unit dispatcher_verus: assumed contracts (verus/dispatcher/prelude_h.rs, prelude_h2.rs): HalfLock::read returns a guard for SOME snapshot (validity while the guard lives is C01), GlobalData::get, ghost-trace contracts of Prev::execute (real body proved complete by Kani c04_prev_execute) and of a call of an action; vstd contracts of HashMap::get and BTreeMap::values (ascending key order); derived Ord of ActionId = numeric order; rewrites R1-R4 of the extraction (lib/verus_dispatcher.py), in particular the NULL-siginfo abort branch is not verified by this unit (Kani: c02_op_handler)']
 
 # Engine V on the real poll_signal (extracted mechanically on every run, see lib/verus_pollsignal.py): unbounded schedules
-UNITS['pollsignal_verus'] = dict(name='pollsignal_verus', engine='verus', module='verus_pollsignal', entry='run_pollsignal', min_verified=3, rlimit=30,
-    obligations=['C11.V-PENDING-ONLY-IF-ARMED', 'C11.V-CLOSED-REAL', 'C10.V-SIGNAL-FROM-SCAN', 'C11.V-ERR-FROM-CALLBACK', 'C09.V-POLL-PROTOCOL'])
+UNITS['pollsignal_verus'] = dict(name='pollsignal_verus', engine='verus', module='verus_pollsignal', entry='run_pollsignal', min_verified=4, rlimit=30,
+    obligations=['C11.V-POLL-PENDING', 'C11.V-PENDING-ONLY-IF-ARMED', 'C11.V-CLOSED-REAL', 'C10.V-SIGNAL-FROM-SCAN', 'C11.V-ERR-FROM-CALLBACK', 'C09.V-POLL-PROTOCOL'])
 FP = 'iterator/backend.rs: SignalIterator::poll_signal (extracted text, Verus, callees by contract, every number of loop iterations / callback answers / instants of close()): '
-obl('C11.V-PENDING-ONLY-IF-ARMED', FP + 'ensures', 'Pending is returned only when the last steps were: callback consulted and answered Ok(false), then one more load of the closed flag that returned false; never after poll_pending returned None because the instance was closed (the defect fixed by 7cdbcb2), never after a refreshed batch that was not re-polled', also=['C09'])
+obl('C11.V-PENDING-ONLY-IF-ARMED', FP + 'ensures', 'Pending is returned only when the last steps were: readiness callback consulted and answered Ok(false), then one more load of the closed flag that returned false; never after poll_pending returned None because the instance was closed (the defect fixed by 7cdbcb2), never after a refreshed batch that was not re-polled', also=['C09'])
+obl('C11.V-POLL-PENDING', 'iterator/backend.rs: SignalDelivery::poll_pending (extracted text, Verus, every state of the closed flag / every callback answer)', 'closed (the one load of the flag returned true) => Ok(None) and the readiness callback is NOT consulted (it could block for ever); otherwise the callback is consulted exactly once: Ok(false) => Ok(None), Ok(true) => drain + fresh batch => Ok(Some), Err => Err; nothing else happens. This verified contract is what poll_signal sees at its call site', also=['C09'])
 obl('C11.V-CLOSED-REAL', FP + 'ensures', 'Closed is returned only after a load of the closed flag returned true (the last event of the trace)')
 obl('C10.V-SIGNAL-FROM-SCAN', FP + 'ensures', 'a reported signal is exactly the value the last scan step (Pending::next) returned; nothing is reported once the closed flag was seen set', also=['C11'])
 obl('C11.V-ERR-FROM-CALLBACK', FP + 'ensures', 'Err is returned only as the callback\'s error, at once')
 obl('C09.V-POLL-PROTOCOL', FP + 'call preconditions (verifier-generated checks on lines of the real code)', 'poll_pending - the only call that may block or park the caller - is made only immediately after a scan step that returned None (the current batch is exhausted) and never after the closed flag was seen set', also=['C11'])
 for _p in ('C09', 'C10', 'C11'):
     PROPS[_p]['units'] = PROPS[_p]['units'] + ['pollsignal_verus']
-    PROPS[_p]['trusted'] = PROPS[_p]['trusted'] + ['Verus unit pollsignal_verus: assumed contracts of Handle::is_closed (monotone flag), Pending::next and SignalDelivery::poll_pending (verus/pollsignal/prelude_p.rs; each proved on the real bodies and the real 128-slot table by Kani: C11.STICKY, C09.SCAN-ALL, C10.ADVANCE-ON-NONE, C11.NO-BLOCK-AFTER-CLOSE, C09.DRAIN-THEN-SCAN); stand-ins for the sealed Exfiltrator trait, AsRawFd, SignalDelivery (only `handle` is named); rewrites P0-P4 of the extraction; termination of the loop not verified']
+    PROPS[_p]['trusted'] = PROPS[_p]['trusted'] + ['Verus unit pollsignal_verus: poll_pending is verified on its extracted body and used by contract in poll_signal; assumed contracts (verus/pollsignal/prelude_p.rs) of Handle::is_closed (monotone flag), Pending::next, SignalDelivery::pending (drain + new batch), get_read_mut and of a call of the readiness callback (each proved on the real bodies and the real 128-slot table by Kani: C11.STICKY, C09.SCAN-ALL, C10.ADVANCE-ON-NONE, C09.DRAIN-THEN-SCAN); stand-ins for the sealed Exfiltrator trait, AsRawFd, SignalDelivery (only `handle` is named); rewrites P0-P4 of the extraction; termination of the loop not verified']
 
 # round 3: the delivery side (dispatcher) and the registration order are now discharged unboundedly by Verus on the extracted text
 PROPS['C02']['level'] = 'proof'
